@@ -34,6 +34,7 @@ type Result struct {
 	BrokenMsgs  []string
 	Floors      map[string][2]int // rule -> {found, floor}
 	Tables      map[string]any
+	DryRun      bool // decide and print only: no evidence file, no replay files
 	Trusted     []string
 	Assumptions []string
 	FuncsSeen   map[string]bool
@@ -180,7 +181,9 @@ func (r *Result) Finish(verifDir string, seed int64) int {
 		}
 	}
 	repDir := filepath.Join(verifDir, "reports", r.Property)
-	_ = os.MkdirAll(repDir, 0o755)
+	if !r.DryRun {
+		_ = os.MkdirAll(repDir, 0o755)
+	}
 	for _, o := range r.Obls {
 		switch o.Status {
 		case "known":
@@ -190,7 +193,9 @@ func (r *Result) Finish(verifDir string, seed int64) int {
 			name := hex.EncodeToString(h[:6]) + ".json"
 			rp := filepath.Join(repDir, name)
 			b, _ := json.MarshalIndent(map[string]any{"property": r.Property, "obligation": o}, "", " ")
-			_ = os.WriteFile(rp, b, 0o644)
+			if !r.DryRun {
+				_ = os.WriteFile(rp, b, 0o644)
+			}
 			fmt.Fprintf(&out, "VIOLATION property=%s replay=%s\n", r.Property, filepath.Join("reports", r.Property, name))
 			fmt.Fprintf(&out, "  rule=%s func=%s at=%s\n  key=%s\n  what=%s\n", o.Rule, o.Func, o.Pos, o.Key, o.What)
 			for _, p := range o.Path {
@@ -220,16 +225,19 @@ func (r *Result) Finish(verifDir string, seed int64) int {
 		}
 	}
 
+	if r.DryRun {
+		return code
+	}
 	// evidence
 	samples := []any{}
 	perRuleSample := map[string]int{}
 	for _, o := range r.Obls {
-		if perRuleSample[o.Rule] < 3 || o.Status != "discharged" {
+		if perRuleSample[o.Rule] < 3 || o.Status != "discharged" || r.Tier == "thorough" {
 			perRuleSample[o.Rule]++
 			samples = append(samples, o)
 		}
-		if len(samples) >= 80 {
-			break
+		if len(samples) >= 80 && r.Tier != "thorough" {
+			break // the thorough tier lists every obligation
 		}
 	}
 	funcs := make([]string, 0, len(r.FuncsSeen))
